@@ -2442,15 +2442,29 @@ pub fn go_file(
     (crate::go::dce::eliminate_dead_vars(file), goenv)
 }
 
+fn mentions_type_param(ty: &tast::Ty) -> bool {
+    match ty {
+        tast::Ty::TParam { .. } => true,
+        tast::Ty::TTuple { typs } => typs.iter().any(mentions_type_param),
+        tast::Ty::TArray { elem, .. } | tast::Ty::TVec { elem } | tast::Ty::TRef { elem } => {
+            mentions_type_param(elem)
+        }
+        tast::Ty::TFunc { params, ret_ty } => {
+            params.iter().any(mentions_type_param) || mentions_type_param(ret_ty)
+        }
+        tast::Ty::TApp { ty, args } => {
+            mentions_type_param(ty) || args.iter().any(mentions_type_param)
+        }
+        _ => false,
+    }
+}
+
 fn gen_type_definition(goenv: &GlobalGoEnv) -> Vec<goast::Item> {
     let mut defs = Vec::new();
     for (name, def) in goenv.structs() {
-        let has_type_param = name.0.contains("TParam")
-            || !def.generics.is_empty()
-            || def
-                .fields
-                .iter()
-                .any(|(_, ty)| matches!(ty, tast::Ty::TParam { .. }));
+        // generic definitions are templates: only their instances become Go types
+        let has_type_param =
+            !def.generics.is_empty() || def.fields.iter().any(|(_, ty)| mentions_type_param(ty));
         if has_type_param {
             continue;
         }
@@ -2472,11 +2486,11 @@ fn gen_type_definition(goenv: &GlobalGoEnv) -> Vec<goast::Item> {
 
     for (name, def) in goenv.enums() {
         // Skip generating Go types for generic-specialized enums whose fields still contain type parameters
-        let has_type_param = name.0.contains("TParam")
+        let has_type_param = !def.generics.is_empty()
             || def
                 .variants
                 .iter()
-                .any(|(_, fields)| fields.iter().any(|f| matches!(f, tast::Ty::TParam { .. })));
+                .any(|(_, fields)| fields.iter().any(mentions_type_param));
         if has_type_param {
             continue;
         }
